@@ -360,3 +360,19 @@ fault("C11.lr-fail-continues", "C11", P, "                        continue\n    
 fault("C11.glr-no-clear", "C11", G, "                    self._do_error_recovery()\n                    self._for_shifter = []\n                    continue", "                    self._do_error_recovery()\n                    continue", "R11.gated")
 fault("C11.shift-value-len", "C11", P, "new_position = head.position + len(head.token_ahead)", "new_position = head.position + len(head.token_ahead.value)", "R11.token-length")
 benign("C11.b-for-shifter-clear-first", "C11", G, "                    self._do_error_recovery()\n                    self._for_shifter = []\n                    continue", "                    self._for_shifter = []\n                    self._do_error_recovery()\n                    self._for_shifter = []\n                    continue")
+
+# ---------------------------------------------------------------- C03
+fault("C03.no-check-lazy", "C03", TR, "    def get_tree(self, idx=0):\n        self._check_index(idx)\n", "    def get_tree(self, idx=0):\n", "R03.bounds")
+fault("C03.nonlazy-neg-only", "C03", TR, "    def get_nonlazy_tree(self, idx=0):\n        self._check_index(idx)\n", "    def get_nonlazy_tree(self, idx=0):\n        if idx < 0:\n            raise IndexError('Forest tree index out of range')\n", "R03.bounds")
+fault("C03.check-le", "C03", TR, "        if not 0 <= idx < self.solutions:", "        if not 0 <= idx <= self.solutions:", "R03.bounds")
+fault("C03.check-valueerror", "C03", TR, "            raise IndexError(\"Forest tree index out of range\")", "            raise ValueError(\"Forest tree index out of range\")", "R03.bounds")
+fault("C03.len-ambiguities", "C03", TR, "    def __len__(self):\n        return self.solutions", "    def __len__(self):\n        return self.ambiguities + 1", "R03.one-count")
+fault("C03.weights-amb", "C03", TR, "weights = [c.solutions for c in self.root.children]", "weights = [c.solutions if c.ambiguity > 1 else 1 for c in self.root.children]", "R03.count-decode")
+fault("C03.first-tree-last", "C03", TR, "                return iter([n.possibilities[0]])", "                return iter([n.possibilities[-1]])", "R03.one-decoder")
+fault("C03.lazy-own-decoder", "C03", TR, "    def _init_children(self, counter):\n        self.counter = counter\n\n    def __getattr__(self, attr):\n        if attr == \"children\":",
+      "    def _init_children(self, counter):\n        self.counter = counter\n\n    def _enumerate_children(self, counter):\n        return [self.__class__(c, 0) for c in self.root.children]\n\n    def __getattr__(self, attr):\n        if attr == \"children\":", "R03.one-decoder")
+fault("C03.no-mark-remove", "C03", TR, "            if check_cycle:\n                visiting.remove(id(node))\n", "", "R03.traversal")
+fault("C03.visited-eq", "C03", G, "                        if id(i) not in visited:\n                            visited.add(id(i))", "                        if i not in visited:\n                            visited.add(i)", "R03.traversal")
+fault("C03.select-lt", "C03", TR, "            while solutions <= counter:", "            while solutions < counter:", "R03.count-decode")
+fault("C03.merge-first", "C03", G, "        self.possibilities.extend(other.possibilities)\n        self._solutions = None", "        self.possibilities.extend(other.possibilities[:1])\n        self._solutions = None", "R03.traversal")
+benign("C03.b-inline-check", "C03", TR, "    def get_tree(self, idx=0):\n        self._check_index(idx)\n", "    def get_tree(self, idx=0):\n        if idx < 0 or idx >= self.solutions:\n            raise IndexError(idx)\n")
